@@ -1,0 +1,36 @@
+//go:build verif
+
+package file
+
+import "encoding/json"
+
+// VerifC19ParseKeyData decodes a key file with the package's own keyData type (same struct tags,
+// same decoder as loadKeys / ExportPrivateKey) and returns the four decoded fields.
+func VerifC19ParseKeyData(b []byte) (privEnc, nonce, pub, salt []byte, err error) {
+	var d keyData
+	if err = json.Unmarshal(b, &d); err != nil {
+		return nil, nil, nil, nil, err
+	}
+	return d.PrivKeyEncrypted, d.Nonce, d.PubKeyBytes, d.Salt, nil
+}
+
+// VerifC19MarshalKeyData encodes a key file with the package's own keyData type.
+func VerifC19MarshalKeyData(privEnc, nonce, pub, salt []byte) ([]byte, error) {
+	return json.Marshal(keyData{PrivKeyEncrypted: privEnc, Nonce: nonce, PubKeyBytes: pub, Salt: salt})
+}
+
+// VerifC19FallbackDeriveKey runs the legacy key derivation on a copy of the passphrase.
+func VerifC19FallbackDeriveKey(passphrase []byte) (key []byte, panicked bool) {
+	defer func() {
+		if recover() != nil {
+			key, panicked = nil, true
+		}
+	}()
+	p := append([]byte{}, passphrase...)
+	return append([]byte{}, fallbackDeriveKey(p, 32)...), false
+}
+
+// VerifC19DeriveKeyArgon2 runs the current key derivation.
+func VerifC19DeriveKeyArgon2(passphrase, salt []byte) []byte {
+	return deriveKeyArgon2(append([]byte{}, passphrase...), salt, 32)
+}
